@@ -5,6 +5,33 @@ import progcheck as pc
 
 MODULES = ["Mimium.Props.C05"]
 
+# Evaluation order of a parameter-pack call.  `f({b = e1, a = e2})` builds a record first: mirgen evaluates the fields in
+# SORTED-NAME order (`alloc_record_aggregate` walks the canonical record type, fields sorted by key), then unpacks it into the
+# positional arguments.  The core `call` evaluates its arguments in parameter order, which is the same order unless the
+# parameter names do not sort positionally (`a9, a10`).  The published layout lists cells in evaluation order, so for such
+# a call the model input of THIS check binds the given arguments in mirgen's order first:
+#   (let rp<site>_<name> e … (call f site (var rp<site>_<name>) …))          (found by the thorough tier: deep:1:10998)
+import coregen as _cg
+_plain_sx = _cg.sx
+
+
+def _sx_pack_order(n):
+    if n.kind == "call" and len(n.a) > 3 and n.a[3] == "record":
+        names, omitted = n.a[4], n.a[5]
+        given = [nm for nm in names if nm not in omitted]
+        if sorted(given) != given:
+            site = n.a[2]
+            tmp = {nm: f"rp{site}_{nm}" for nm in given}
+            args = [f"(var {tmp[nm]})" if nm in tmp else _cg.sx(a) for nm, a in zip(names, n.a[1])]
+            out = f"(call {n.a[0]} {site} " + " ".join(args) + ")"
+            for nm in reversed(sorted(given)):
+                out = f"(let {tmp[nm]} {_cg.sx(n.a[1][names.index(nm)])} {out})"
+            return out
+    return _plain_sx(n)
+
+
+_cg.sx = _sx_pack_order
+
 
 def run_c05(cases, nshards=None):
     nshards = nshards or min(NCPU, max(1, len(cases) // 20))
@@ -29,6 +56,28 @@ def run_c05(cases, nshards=None):
     for r in parallel(shards, work, nproc=nshards):
         out.update(r)
     return out
+
+
+def _mentions_self(n):
+    return n.kind == "self" or any(_mentions_self(ch) for _, ch in _cg.children(n))
+
+
+def shrink_layout_case(case, still_differs, budget=250):
+    """minimise a program on which model and compiler publish different layouts.  The generic shrinker keeps a function's
+    `uses_self` flag when it shrinks `self` out of the body (the S-expression would then declare a self shape the source no
+    longer has): such candidates are not programs of the fragment and are rejected."""
+    def pred(q):
+        try:
+            if any(f.uses_self != _mentions_self(f.body) for f in q.fns + [q.dsp]):
+                return False
+            return still_differs(q.src(), q.sx(), case["inputs"])
+        except Exception:
+            return False
+    try:
+        q = _cg.shrink(case["prog"], pred, budget)
+        return {"src": q.src(), "sx": q.sx(), "inputs": case["inputs"], "times": case["times"]}
+    except Exception as e:
+        return {"src": case["src"], "sx": case["sx"], "inputs": case["inputs"], "times": case["times"], "shrink_error": str(e)}
 
 
 def pubinfo(pub):
@@ -78,7 +127,7 @@ def main(ctx, args):
     plan = [("core", 700), ("deep", 300), ("scalar", 400), ("scalar_deep", 300)] if ctx.tier == "quick" else [("core", 8000), ("deep", 3000), ("scalar", 4000), ("scalar_deep", 3000)]
     if args.replay:
         r = json.load(open(args.replay))
-        allcases = [{"id": "replay", "src": r["src"], "inputs": r.get("inputs", []), "times": r.get("times", 8)}]
+        allcases = [{"id": "replay", "src": r["src"], "sx": r.get("sx"), "inputs": r.get("inputs", []), "times": r.get("times", 8)}]
     else:
         allcases, off = [], 0
         for prof, n in plan:
@@ -190,8 +239,8 @@ def main(ctx, args):
                 def still_l(src, sx, inputs):
                     r = run_c05([{"id": "s", "src": src, "sx": sx, "inputs": inputs, "times": 1}], nshards=1)["s"]
                     return r[0] == "ok" and r[4].startswith("diff")
-                rep["shrunk"] = pc.shrink_case(c, still_l)
-                rep["src"] = rep["shrunk"]["src"]
+                rep["shrunk"] = shrink_layout_case(c, still_l)
+                rep["src"], rep["sx"] = rep["shrunk"]["src"], rep["shrunk"]["sx"]
             ctx.violation(f"the state layout the Lean model of mirgen publishes for dsp differs from the compiler's on {len(group)} programs, {label} "
                           f"(compiler {skel}, model {pi.get('model')}); smallest:\n{rep['src']}", rep)
     if not proved and not failures and not layout_diffs:
